@@ -430,6 +430,29 @@ impl Translator {
 
     pub fn run(&mut self, files: &[SrcFile], extra: &[SrcFile]) -> RunResult {
         self.collect(files, extra);
+        // a field whose type names no struct of the crate (u32, u8, i64, f32, a foreign type …) is outside the plain-data
+        // grammar: make it `Unknown` so that the structure still elaborates (opaque `Unit` slot, see emit_struct)
+        {
+            fn names_known(t: &Ty, known: &dyn Fn(&str) -> bool) -> bool {
+                match t {
+                    Ty::Struct(n) => known(n),
+                    Ty::Opt(x) | Ty::Res(x) => names_known(x, known),
+                    Ty::Tuple(v) => v.iter().all(|x| names_known(x, known)),
+                    _ => true,
+                }
+            }
+            let names: std::collections::HashSet<String> = self.structs.keys().cloned().collect();
+            let aliases = self.aliases.clone();
+            for si in self.structs.values_mut() {
+                let al = aliases.get(&si.stem).cloned().unwrap_or_default();
+                for f in si.fields.iter_mut() {
+                    let known = |n: &str| names.contains(n) || al.get(n).map(|r| names.contains(r)).unwrap_or(false);
+                    if !names_known(&f.ty, &known) {
+                        f.ty = Ty::Unknown;
+                    }
+                }
+            }
+        }
         for f in files {
             for it in &f.ast.items {
                 if let syn::Item::Fn(func) = it {
